@@ -250,6 +250,14 @@ func observe(c *Case, r *mon.Rec, t target, fields modbus.Fields) {
 	if c.Kind == "random" {
 		usage = int(uint64(c.Seed) % 5)
 	}
+	blank := c.Kind == "random" && (uint64(c.Seed)>>9)%16 == 0 && !t.coils
+	if blank {
+		// a blank definition (the zero value: a row a configuration loader left empty) somewhere in the list: it is a
+		// field like any other - the builder reports it (an error) or plans it, it does not make it disappear
+		at := int((uint64(c.Seed) >> 13) % uint64(len(fields)+1))
+		fields = append(append(append(modbus.Fields{}, fields[:at]...), modbus.Field{}), fields[at:]...)
+		r.Cover("usage", "blank-definition-in-the-list")
+	}
 	b := build(fields, usage, uint64(c.Seed)>>3)
 	if c.Kind == "random" && (uint64(c.Seed)>>5)%3 == 0 {
 		// the same builder has already been asked for another kind of requests (an application polling coils and
@@ -273,6 +281,18 @@ func observe(c *Case, r *mon.Rec, t target, fields modbus.Fields) {
 		return
 	}
 	r.Cover("outcome", "requests")
+	if blank {
+		found := false
+		for _, rq := range reqs {
+			for _, f := range rq.Fields {
+				found = found || f == (modbus.Field{})
+			}
+		}
+		if !found {
+			r.Violate(c, "field-missing", mon.Attrs{"kind_coils": t.coils, "blank_definition": true}, fmt.Sprintf("target %s: the list contained a blank definition (Field{}); the builder returned %d requests and no error, the blank definition is in none of them", t.name, len(reqs)))
+		}
+		return
+	}
 	V := func(kind string, a mon.Attrs, detail string) {
 		a["kind_coils"] = t.coils
 		r.Violate(c, kind, a, fmt.Sprintf("target %s fields %s: %s", t.name, brief(fields), detail))
